@@ -5,55 +5,6 @@ package protocol
 import "strconv"
 
 //vp:property C06
-//vp:set reads 2 3
-//vp:set sizes 8 11
-//vp:set loopmax 400000 400000
-//vp:bounds backend->client: a host stream delivered in `reads` socket reads, each of a size drawn from {0,1,2,255,4085,4086,65535,65536,(thorough: 256,4087,70000)}, first/last/middle bytes symbolic (rest constant 0xEE), then a read error
-//vp:reach relayed
-func VP_C06_forward() {
-	sizes := []int{0, 1, 2, 255, 4085, 4086, 65535, 65536, 256, 4087, 70000}
-	nreads := vpParam("reads")
-	conn := &vpConn{}
-	var stream []byte
-	for i := 0; i < nreads; i++ {
-		is := strconv.Itoa(i)
-		n := sizes[vpIntRange("size"+is, 0, vpParam("sizes")-1)]
-		chunk := make([]byte, n)
-		for j := range chunk {
-			chunk[j] = 0xEE
-		}
-		if n > 0 {
-			chunk[0] = vpU8("first" + is)
-			chunk[n-1] = vpU8("last" + is)
-			chunk[n/2] = vpU8("mid" + is)
-		}
-		conn.reads = append(conn.reads, chunk)
-		stream = append(stream, chunk...)
-	}
-	tr := &vpTransport{}
-	tun := &Tunnel{transportIn: tr, transportOut: tr, User: vpUser()}
-	forward(conn, tun)
-
-	var got []byte
-	for _, p := range tr.out {
-		vpAssert(len(p) >= 10, "data-packet-min-size")
-		if len(p) < 10 {
-			return
-		}
-		vpAssert(vpLE16(p, 0) == 0xA && vpLE16(p, 2) == 0, "data-packet-type")
-		vpAssert(vpLE32(p, 4) == uint32(len(p)), "header-length-equals-bytes-sent")
-		vpAssert(int(vpLE16(p, 8)) == len(p)-10, "payload-length-field-equals-payload")
-		got = append(got, p[10:]...)
-	}
-	vpReach("relayed")
-	vpAssert(len(got) == len(stream), "client-receives-exactly-as-many-bytes-as-the-host-produced")
-	vpAssert(vpEqBytes(got, stream), "client-stream-equals-host-stream")
-	vpAssert(conn.closed, "backend-closed-after-read-error")
-	vpObserve("npkts", uint64(len(tr.out)))
-	vpObserve("nbytes", uint64(len(got)))
-}
-
-//vp:property C06
 //vp:set bmax 8 14
 //vp:set maxalloc 20 20
 //vp:bounds client->backend: one DATA body of every length 0..bmax with symbolic bytes whose declared payload length fits the carried bytes
@@ -133,4 +84,67 @@ func VP_C06_stream() {
 	vpAssert(tr.pos == k, "every-packet-of-the-stream-is-processed")
 	vpAssert(len(got) == len(want), "host-receives-exactly-as-many-bytes-as-the-client-declared")
 	vpAssert(vpEqBytes(got, want), "host-stream-equals-the-concatenated-data-payloads")
+}
+
+//vp:property C06
+//vp:set reads 2 3
+//vp:set sizes 9 12
+//vp:set loopmax 600000 600000
+//vp:set maxsteps 4000000 40000000
+//vp:set budget 300 1500
+//vp:bounds backend->client through the packet loop (the relay function is reached only through Process, so its name and signature are free to change): a channel-create is processed (host policy allowing, dial succeeding) and the relay goroutine it starts carries a host stream delivered in `reads` socket reads of a size drawn from {0,1,2,255,4085,4086,4087,65535,65536,(thorough: 256,70000,131072)} (first/middle/last byte symbolic), after which the host hangs up; the gateway's configured socket buffer sizes are drawn from {0, 4096, 65535, 65536, 262144}
+//vp:reach relayed
+func VP_C06_relay_via_process() {
+	vpResetC01()
+	sizes := []int{0, 1, 2, 255, 4085, 4086, 4087, 65535, 65536, 256, 70000, 131072}
+	bufs := []int{0, 4096, 65535, 65536, 262144}
+	var stream []byte
+	for i := 0; i < vpParam("reads"); i++ {
+		is := strconv.Itoa(i)
+		n := sizes[vpIntRange("size"+is, 0, vpParam("sizes")-1)]
+		chunk := make([]byte, n)
+		for j := range chunk {
+			chunk[j] = 0xEE
+		}
+		if n > 0 {
+			chunk[0], chunk[n/2], chunk[n-1] = vpU8("first"+is), vpU8("mid"+is), vpU8("last"+is)
+		}
+		vpBackendReads = append(vpBackendReads, chunk)
+		stream = append(stream, chunk...)
+	}
+	if vpBackendReads == nil {
+		vpBackendReads = [][]byte{}
+	}
+	vpBackendHangsUp = true
+	gw := &Gateway{SendBuf: bufs[vpIntRange("sendbuf", 0, len(bufs)-1)], ReceiveBuf: bufs[vpIntRange("receivebuf", 0, len(bufs)-1)]}
+	tr := &vpTransport{in: [][]byte{vpSetupPacket(3)}, yieldOnRead: true}
+	// the client stays until the host has hung up and the relay goroutine has passed everything on
+	tr.beforeEOF = func() {
+		if len(vpDialConns) == 1 {
+			vpWaitClosed(vpDialConns[0])
+		}
+	}
+	tun := &Tunnel{transportIn: tr, transportOut: tr, User: vpUser()}
+	p := NewProcessor(gw, tun)
+	p.state = SERVER_STATE_TUNNEL_AUTHORIZE
+	p.Process(vpCtx())
+	vpRunTasks()
+	vpAssume(len(vpDialConns) == 1 && len(tr.out) >= 1 && vpLE16(tr.out[0], 0) == 9 && vpStatusOf(tr.out[0]) == 0) // the channel opened
+
+	var got []byte
+	for _, pk := range tr.out[1:] {
+		vpAssert(len(pk) >= 10 && vpLE16(pk, 0) == 0xA && vpLE16(pk, 2) == 0, "data-packet-type")
+		if len(pk) < 10 {
+			return
+		}
+		vpAssert(vpLE32(pk, 4) == uint32(len(pk)), "header-length-equals-bytes-sent")
+		vpAssert(int(vpLE16(pk, 8)) == len(pk)-10, "payload-length-field-equals-payload")
+		got = append(got, pk[10:]...)
+	}
+	vpReach("relayed")
+	vpAssert(len(got) == len(stream), "client-receives-exactly-as-many-bytes-as-the-host-produced")
+	vpAssert(vpEqBytes(got, stream), "client-stream-equals-host-stream")
+	vpAssert(vpDialConns[0].closed, "backend-closed-after-read-error")
+	vpObserve("npkts", uint64(len(tr.out)-1))
+	vpObserve("nbytes", uint64(len(got)))
 }
